@@ -1,0 +1,63 @@
+//go:build verif
+
+package tcpclv4
+
+// Hooks for the out-of-tree verification harness (build tag verif). Add-only: nothing here is
+// compiled into a normal build. internal/utils and internal/msgs can only be imported from inside
+// this package, so the transfer types and their constructors are re-exported here.
+
+import (
+	"io"
+
+	"github.com/dtn7/dtn7-go/pkg/bpv7"
+	"github.com/dtn7/dtn7-go/pkg/cla/tcpclv4/internal/msgs"
+	"github.com/dtn7/dtn7-go/pkg/cla/tcpclv4/internal/utils"
+)
+
+type (
+	VerifMessage          = msgs.Message
+	VerifSegmentFlags     = msgs.SegmentFlags
+	VerifXferSegment      = msgs.DataTransmissionMessage
+	VerifXferAck          = msgs.DataAcknowledgementMessage
+	VerifXferRefuse       = msgs.TransferRefusalMessage
+	VerifRefusalCode      = msgs.TransferRefusalCode
+	VerifOutgoingTransfer = utils.OutgoingTransfer
+	VerifIncomingTransfer = utils.IncomingTransfer
+	VerifTransferManager  = utils.TransferManager
+)
+
+const (
+	VerifSegmentEnd   = msgs.SegmentEnd
+	VerifSegmentStart = msgs.SegmentStart
+)
+
+// VerifNewOutgoingTransfer exposes utils.NewOutgoingTransfer (raw byte stream written by the caller).
+func VerifNewOutgoingTransfer(id uint64) (*utils.OutgoingTransfer, io.Writer) {
+	return utils.NewOutgoingTransfer(id)
+}
+
+// VerifNewBundleOutgoingTransfer exposes utils.NewBundleOutgoingTransfer.
+func VerifNewBundleOutgoingTransfer(id uint64, b bpv7.Bundle) *utils.OutgoingTransfer {
+	return utils.NewBundleOutgoingTransfer(id, b)
+}
+
+// VerifNewIncomingTransfer exposes utils.NewIncomingTransfer.
+func VerifNewIncomingTransfer(id uint64) *utils.IncomingTransfer {
+	return utils.NewIncomingTransfer(id)
+}
+
+// VerifNewTransferManager exposes utils.NewTransferManager.
+func VerifNewTransferManager(msgIn <-chan msgs.Message, msgOut chan<- msgs.Message, segmentMtu uint64) *utils.TransferManager {
+	return utils.NewTransferManager(msgIn, msgOut, segmentMtu)
+}
+
+// VerifNewXferSegment / Ack / Refuse expose the message constructors.
+func VerifNewXferSegment(flags msgs.SegmentFlags, tid uint64, data []byte) *msgs.DataTransmissionMessage {
+	return msgs.NewDataTransmissionMessage(flags, tid, data)
+}
+func VerifNewXferAck(flags msgs.SegmentFlags, tid, ackLen uint64) *msgs.DataAcknowledgementMessage {
+	return msgs.NewDataAcknowledgementMessage(flags, tid, ackLen)
+}
+func VerifNewXferRefuse(reason msgs.TransferRefusalCode, tid uint64) *msgs.TransferRefusalMessage {
+	return msgs.NewTransferRefusalMessage(reason, tid)
+}
